@@ -5,12 +5,16 @@
      peerconnection.go  CreateOffer, CreateAnswer, setDescription (offer/answer
                         rows), SetLocalDescription, SetRemoteDescription (the
                         transceiver matching loop), generateUnmatchedSDP,
-                        generateMatchedSDP, AddTransceiverFromKind,
+                        generateMatchedSDP, AddTransceiverFromKind, AddTrack,
+                        RemoveTrack, setRTPTransceiverCurrentDirection,
                         CreateDataChannel (its effect on dataChannelsRequested)
      sdp.go             populateSDP, addTransceiverSDP (rejection path),
                         addDataMediaSection, bundleMatchFromRemote, getMidValue,
                         getPeerDirection, getByMid
-     rtptransceiver.go  findByMid, satisfyTypeAndDirection, SetMid, Stop
+     rtptransceiver.go  findByMid, satisfyTypeAndDirection, SetMid, Stop,
+                        isSendAllowed, SetSender/setSendingTrack
+     signalingstate.go  checkNextSignalingState (offer, pranswer, answer; pion
+                        accepts no rollback from any state it can reach here)
      mediaengine.go     updateFromRemoteDescription (only: which kind becomes
                         "negotiated", and whether its codec list is empty;
                         multi-codec negotiation on, the default)
@@ -23,7 +27,7 @@
    without indices.  Outside the model (fixed by the harness, stated in
    props): SDPSemantics = UnifiedPlan, no Plan-B detection (no section with two
    tracks), AlwaysNegotiateDataChannels = false, sdpMediaLevelFingerprints =
-   false, no codec preferences, default media engine; pranswer and rollback. *)
+   false, no codec preferences, default media engine; rollback. *)
 From Coq Require Import List ZArith String Ascii Bool.
 Import ListNotations.
 From Verif Require Import Common.Base Common.JsepNumeral.
@@ -33,8 +37,8 @@ Open Scope list_scope.
 Inductive mkind := MAudio | MVideo.
 Inductive kind := KAudio | KVideo | KApplication | KOther.
 Inductive dir := Sendrecv | Sendonly | Recvonly | Inactive.
-Inductive sdpty := TOffer | TAnswer.
-Inductive sigst := Stable | HaveLocalOffer | HaveRemoteOffer.
+Inductive sdpty := TOffer | TPranswer | TAnswer.
+Inductive sigst := Stable | HaveLocalOffer | HaveRemoteOffer | HaveLocalPranswer | HaveRemotePranswer.
 
 Definition mkind_eqb (a b : mkind) : bool :=
   match a, b with MAudio, MAudio | MVideo, MVideo => true | _, _ => false end.
@@ -59,46 +63,6 @@ Record rdesc := {
   r_secs : list rsection;
   r_group : option string }. (* value of the first session-level a=group, if any *)
 
-(* ---------- local state ---------- *)
-Record tr := {
-  t_mid : string;            (* "" = unset *)
-  t_kind : mkind;
-  t_dir : dir;
-  t_sender : bool;           (* Sender() != nil *)
-  t_neg : bool;              (* sender.negotiated *)
-  t_sent : bool }.           (* sender.hasSent() *)
-
-Record st := {
-  trs : list tr;
-  gmid : Z;                        (* pc.greaterMid, a Go int *)
-  dc : bool;                       (* sctpTransport.dataChannelsRequested != 0 *)
-  sig : sigst;
-  cur_remote : option rdesc;
-  pend_remote : option rdesc;
-  neg_audio : option bool;         (* None: not negotiated; Some b: negotiated, b = list non-empty *)
-  neg_video : option bool }.
-
-Definition init : st :=
-  {| trs := []; gmid := (-1)%Z; dc := false; sig := Stable; cur_remote := None; pend_remote := None;
-     neg_audio := None; neg_video := None |}.
-
-Definition set_trs (s : st) (l : list tr) : st :=
-  {| trs := l; gmid := gmid s; dc := dc s; sig := sig s; cur_remote := cur_remote s;
-     pend_remote := pend_remote s;
-     neg_audio := neg_audio s; neg_video := neg_video s |}.
-
-(* getCodecsByKind(kind) is non-empty (default engine; after negotiation the
-   negotiated list) *)
-Definition has_codecs (s : st) (k : mkind) : bool :=
-  match (match k with MAudio => neg_audio s | MVideo => neg_video s end) with
-  | None => true
-  | Some b => b
-  end.
-
-(* pc.RemoteDescription(): pending if set, else current *)
-Definition remote_desc (s : st) : option rdesc :=
-  match pend_remote s with Some d => Some d | None => cur_remote s end.
-
 (* ---------- generated descriptions (projected) ---------- *)
 Record lsection := {
   l_kind : kind;
@@ -113,20 +77,79 @@ Record ldesc := {
   l_bundle : list string;    (* tags of a=group:BUNDLE; [] = no group attribute *)
   l_fp_session : bool }.
 
+(* ---------- local state ---------- *)
+Record tr := {
+  t_mid : string;            (* "" = unset *)
+  t_kind : mkind;
+  t_dir : dir;
+  t_sender : bool;           (* Sender() != nil *)
+  t_neg : bool;              (* sender.negotiated *)
+  t_sent : bool;             (* sender.hasSent() *)
+  t_cur : option dir;        (* currentDirection; None = unknown *)
+  t_rcur : option dir }.     (* currentRemoteDirection; None = unknown *)
+
+Record st := {
+  trs : list tr;
+  gmid : Z;                        (* pc.greaterMid, a Go int *)
+  dc : bool;                       (* sctpTransport.dataChannelsRequested != 0 *)
+  sig : sigst;
+  cur_remote : option rdesc;
+  pend_remote : option rdesc;
+  neg_audio : option bool;         (* None: not negotiated; Some b: negotiated, b = list non-empty *)
+  neg_video : option bool;
+  last_offer : option ldesc;       (* pc.lastOffer (projected); None = "" *)
+  last_answer : option ldesc }.    (* pc.lastAnswer *)
+
+Definition init : st :=
+  {| trs := []; gmid := (-1)%Z; dc := false; sig := Stable; cur_remote := None; pend_remote := None;
+     neg_audio := None; neg_video := None; last_offer := None; last_answer := None |}.
+
+Definition set_trs (s : st) (l : list tr) : st :=
+  {| trs := l; gmid := gmid s; dc := dc s; sig := sig s; cur_remote := cur_remote s;
+     pend_remote := pend_remote s;
+     neg_audio := neg_audio s; neg_video := neg_video s;
+     last_offer := last_offer s; last_answer := last_answer s |}.
+
+(* getCodecsByKind(kind) is non-empty (default engine; after negotiation the
+   negotiated list) *)
+Definition has_codecs (s : st) (k : mkind) : bool :=
+  match (match k with MAudio => neg_audio s | MVideo => neg_video s end) with
+  | None => true
+  | Some b => b
+  end.
+
+(* pc.RemoteDescription(): pending if set, else current *)
+Definition remote_desc (s : st) : option rdesc :=
+  match pend_remote s with Some d => Some d | None => cur_remote s end.
+
 (* ---------- transceiver helpers ---------- *)
 Definition mid_unset (t : tr) : bool := String.eqb (t_mid t) "".
 Definition with_mid (t : tr) (m : string) : tr :=
-  {| t_mid := m; t_kind := t_kind t; t_dir := t_dir t; t_sender := t_sender t; t_neg := t_neg t; t_sent := t_sent t |}.
+  {| t_mid := m; t_kind := t_kind t; t_dir := t_dir t; t_sender := t_sender t; t_neg := t_neg t; t_sent := t_sent t;
+     t_cur := t_cur t; t_rcur := t_rcur t |}.
 Definition with_dir (t : tr) (d : dir) : tr :=
-  {| t_mid := t_mid t; t_kind := t_kind t; t_dir := d; t_sender := t_sender t; t_neg := t_neg t; t_sent := t_sent t |}.
+  {| t_mid := t_mid t; t_kind := t_kind t; t_dir := d; t_sender := t_sender t; t_neg := t_neg t; t_sent := t_sent t;
+     t_cur := t_cur t; t_rcur := t_rcur t |}.
+(* setCurrentDirection / setCurrentRemoteDirection *)
+Definition with_cur (t : tr) (c : option dir) : tr :=
+  {| t_mid := t_mid t; t_kind := t_kind t; t_dir := t_dir t; t_sender := t_sender t; t_neg := t_neg t; t_sent := t_sent t;
+     t_cur := c; t_rcur := t_rcur t |}.
+Definition with_rcur (t : tr) (c : option dir) : tr :=
+  {| t_mid := t_mid t; t_kind := t_kind t; t_dir := t_dir t; t_sender := t_sender t; t_neg := t_neg t; t_sent := t_sent t;
+     t_cur := t_cur t; t_rcur := c |}.
 (* sender.setNegotiated() when there is a sender *)
 Definition set_neg (t : tr) : tr :=
   {| t_mid := t_mid t; t_kind := t_kind t; t_dir := t_dir t; t_sender := t_sender t;
-     t_neg := t_sender t || t_neg t; t_sent := t_sent t |}.
+     t_neg := t_sender t || t_neg t; t_sent := t_sent t; t_cur := t_cur t; t_rcur := t_rcur t |}.
 Definition set_sent (t : tr) : tr :=
-  {| t_mid := t_mid t; t_kind := t_kind t; t_dir := t_dir t; t_sender := t_sender t; t_neg := t_neg t; t_sent := true |}.
-(* RTPTransceiver.Stop: direction (and currentDirection) become inactive *)
-Definition stop_tr (t : tr) : tr := with_dir t Inactive.
+  {| t_mid := t_mid t; t_kind := t_kind t; t_dir := t_dir t; t_sender := t_sender t; t_neg := t_neg t; t_sent := true;
+     t_cur := t_cur t; t_rcur := t_rcur t |}.
+(* a new sender (not negotiated, nothing sent) / no sender *)
+Definition with_sender (t : tr) (b : bool) : tr :=
+  {| t_mid := t_mid t; t_kind := t_kind t; t_dir := t_dir t; t_sender := b; t_neg := false; t_sent := false;
+     t_cur := t_cur t; t_rcur := t_rcur t |}.
+(* RTPTransceiver.Stop: direction and currentDirection become inactive *)
+Definition stop_tr (t : tr) : tr := with_cur (with_dir t Inactive) (Some Inactive).
 (* SetMid: refuses to change a set mid (callers below only reach it with "") *)
 Definition set_mid (t : tr) (m : string) : result tr :=
   if mid_unset t then Ok (with_mid t m) else Err "cannot-change-mid".
@@ -184,17 +207,19 @@ Definition adjust_dir (remote : dir) (t : tr) : tr :=
   | Sendonly, Inactive => with_dir t Recvonly
   | _, _ => t
   end.
-(* found by mid: Stop() first when the remote direction is inactive *)
+(* found by mid: Stop() first when the remote direction is inactive; then
+   setCurrentRemoteDirection, then the switch *)
 Definition on_found (remote : dir) (t : tr) : tr :=
-  adjust_dir remote (match remote with Inactive => stop_tr t | _ => t end).
-(* found by type and direction: adjust, then SetMid (mid is unset there) *)
+  adjust_dir remote (with_rcur (match remote with Inactive => stop_tr t | _ => t end) (Some remote)).
+(* found by type and direction: setCurrentRemoteDirection, the switch, then
+   SetMid (mid is unset there) *)
 Definition on_satisfied (remote : dir) (m : string) (t : tr) : tr :=
-  with_mid (adjust_dir remote t) m.
+  with_mid (adjust_dir remote (with_rcur t (Some remote))) m.
 (* no candidate: a new receive-side transceiver *)
 Definition new_remote_tr (k : mkind) (remote : dir) (m : string) : tr :=
   {| t_mid := m; t_kind := k;
      t_dir := match remote with Recvonly => Sendonly | Inactive => Inactive | _ => Recvonly end;
-     t_sender := false; t_neg := false; t_sent := false |}.
+     t_sender := false; t_neg := false; t_sent := false; t_cur := None; t_rcur := Some remote |}.
 
 (* returns the transceivers as they are when the loop ends or returns early,
    and the error class of an early return *)
@@ -253,6 +278,40 @@ Fixpoint start_senders (codecs : mkind -> bool) (l : list tr) : list tr * option
       else
         let '(rest', e) := start_senders codecs rest in (t :: rest', e)
   end.
+
+(* setRTPTransceiverCurrentDirection (its error is discarded by both callers;
+   an early return leaves the remaining sections unvisited).  A section of the
+   applied answer as that function reads it: media type, getMidValue,
+   getPeerDirection. *)
+Definition asec := (kind * string * option dir)%type.
+Definition asec_of_r (r : rsection) : asec := (r_kind r, r_mid r, r_dir r).
+Definition asec_of_l (x : lsection) : asec :=
+  (l_kind x, match l_mid x with Some m => m | None => EmptyString end, l_dir x).
+Definition cur_dir_for (we_offer : bool) (d : dir) (t : tr) : dir :=
+  let d1 := if we_offer then match d with Sendonly => Recvonly | Recvonly => Sendonly | x => x end else d in
+  if negb we_offer && dir_eqb d1 Sendonly && negb (t_sender t) then Inactive else d1.
+Definition on_answered (we_offer : bool) (od : option dir) (t : tr) : tr :=
+  match od with
+  | Some d => with_cur t (Some (cur_dir_for we_offer d t))
+  | None => t
+  end.
+Fixpoint cur_dirs_loop (we_offer : bool) (secs : list asec) (l : list ltr) : list ltr :=
+  match secs with
+  | [] => l
+  | (k, m, od) :: rest =>
+      if String.eqb m "" then l
+      else
+        match k with
+        | KApplication => cur_dirs_loop we_offer rest l
+        | _ =>
+            match find_upd (by_mid m) (on_answered we_offer od) l with
+            | Some (_, l') => cur_dirs_loop we_offer rest l'
+            | None => l
+            end
+        end
+  end.
+Definition set_cur_dirs (we_offer : bool) (secs : list asec) (l : list tr) : list tr :=
+  strip (cur_dirs_loop we_offer secs (fresh_local l)).
 
 (* ---------- media sections handed to populateSDP ---------- *)
 Inductive msec :=
@@ -402,11 +461,15 @@ Definition bump (g : Z) (mid : string) : Z :=
   | Some n => if Z.gtb n g then n else g
   | None => g
   end.
+(* the mids of one remote description: Atoi(getMidValue(media)), "" does not parse *)
 Definition bump_remote (g : Z) (d : option rdesc) : Z :=
   match d with
-  | Some d => fold_left (fun g r => if String.eqb (r_mid r) "" then g else bump g (r_mid r)) (r_secs d) g
+  | Some d => fold_left (fun g r => bump g (r_mid r)) (r_secs d) g
   | None => g
   end.
+(* first pass over the transceivers: the mids that are already set *)
+Definition bump_trs (g : Z) (l : list tr) : Z := fold_left (fun g t => bump g (t_mid t)) l g.
+(* second pass: the transceivers without mid are numbered greaterMid+1, ... *)
 Fixpoint alloc_mids (g : Z) (l : list tr) : Z * list tr :=
   match l with
   | [] => (g, [])
@@ -416,18 +479,22 @@ Fixpoint alloc_mids (g : Z) (l : list tr) : Z * list tr :=
         let '(g2, rest') := alloc_mids g' rest in
         (g2, with_mid t (itoa g') :: rest')
       else
-        let '(g2, rest') := alloc_mids (bump g (t_mid t)) rest in
+        let '(g2, rest') := alloc_mids g rest in
         (g2, t :: rest')
   end.
 
 Definition set_gmid_trs (s : st) (g : Z) (l : list tr) : st :=
   {| trs := l; gmid := g; dc := dc s; sig := sig s; cur_remote := cur_remote s;
      pend_remote := pend_remote s;
-     neg_audio := neg_audio s; neg_video := neg_video s |}.
+     neg_audio := neg_audio s; neg_video := neg_video s;
+     last_offer := last_offer s; last_answer := last_answer s |}.
+(* greaterMid after CreateOffer has looked at the current and the pending remote
+   description and at every transceiver that has a mid *)
+Definition offer_start (s : st) : Z :=
+  bump_trs (bump_remote (bump_remote (gmid s) (cur_remote s)) (pend_remote s)) (trs s).
 (* the state after CreateOffer's mid allocation *)
 Definition offer_alloc (s : st) : st :=
-  let g1 := bump_remote (gmid s) (cur_remote s) in
-  let '(g2, l) := alloc_mids g1 (trs s) in
+  let '(g2, l) := alloc_mids (offer_start s) (trs s) in
   set_gmid_trs s g2 l.
 
 (* the remote description CreateOffer generates against: none when there is no
@@ -446,9 +513,21 @@ Definition offer_sections (s1 : st) : list tr * result (list msec * bool * optio
   | Some d => gen_matched s1 d true
   end.
 
+Definition set_last_offer (s : st) (d : ldesc) : st :=
+  {| trs := trs s; gmid := gmid s; dc := dc s; sig := sig s; cur_remote := cur_remote s;
+     pend_remote := pend_remote s;
+     neg_audio := neg_audio s; neg_video := neg_video s;
+     last_offer := Some d; last_answer := last_answer s |}.
+Definition set_last_answer (s : st) (d : ldesc) : st :=
+  {| trs := trs s; gmid := gmid s; dc := dc s; sig := sig s; cur_remote := cur_remote s;
+     pend_remote := pend_remote s;
+     neg_audio := neg_audio s; neg_video := neg_video s;
+     last_offer := last_offer s; last_answer := Some d |}.
+
 (* CreateOffer.  The retry loop: when hasLocalDescriptionChanged holds, the
    next iteration starts from a state in which every mid is already set, so it
-   computes the same description again; after 128 rounds the call fails. *)
+   computes the same description again; after 128 rounds the call fails.  A
+   successful call records the offer in pc.lastOffer. *)
 Definition create_offer (s : st) : st * result ldesc :=
   let s1 := offer_alloc s in
   match offer_sections s1 with
@@ -462,7 +541,7 @@ Definition create_offer (s : st) : st * result ldesc :=
       | Ok p =>
           let d := mk_ldesc p in
           if local_changed l d then (s2, Err "excessive-retries")
-          else (s2, Ok d)
+          else (set_last_offer s2 d, Ok d)
       end
   end.
 
@@ -472,7 +551,7 @@ Definition create_answer (s : st) : st * result ldesc :=
   | None => (s, Err "no-remote-description")
   | Some d =>
       match sig s with
-      | HaveRemoteOffer =>
+      | HaveRemoteOffer | HaveLocalPranswer =>
           match gen_matched s d false with
           | (l, Err e) => (set_trs s l, Err e)
           | (l, Panic) => (set_trs s l, Panic)
@@ -481,7 +560,7 @@ Definition create_answer (s : st) : st * result ldesc :=
               match populate (has_codecs s2) g secs with
               | Err e => (s2, Err e)
               | Panic => (s2, Panic)
-              | Ok p => (s2, Ok (mk_ldesc p))
+              | Ok p => (set_last_answer s2 (mk_ldesc p), Ok (mk_ldesc p))
               end
           end
       | _ => (s, Err "incorrect-signaling-state")
@@ -491,66 +570,121 @@ Definition create_answer (s : st) : st * result ldesc :=
 (* ---------- SetLocalDescription / SetRemoteDescription ---------- *)
 Definition set_sig_remote (s : st) (g : sigst) (cur pend : option rdesc) : st :=
   {| trs := trs s; gmid := gmid s; dc := dc s; sig := g; cur_remote := cur; pend_remote := pend;
-    
-     neg_audio := neg_audio s; neg_video := neg_video s |}.
+     neg_audio := neg_audio s; neg_video := neg_video s;
+     last_offer := last_offer s; last_answer := last_answer s |}.
 Definition set_engine (s : st) (e : option bool * option bool) : st :=
   {| trs := trs s; gmid := gmid s; dc := dc s; sig := sig s; cur_remote := cur_remote s;
      pend_remote := pend_remote s;
-     neg_audio := fst e; neg_video := snd e |}.
+     neg_audio := fst e; neg_video := snd e;
+     last_offer := last_offer s; last_answer := last_answer s |}.
 
 Definition finish_senders (s : st) : st * result unit :=
   let '(l, e) := start_senders (has_codecs s) (trs s) in
   (set_trs s l, match e with Some c => Err c | None => Ok tt end).
 
+(* the sections of pc.lastAnswer as setRTPTransceiverCurrentDirection reads them *)
+Definition answer_asecs (a : option ldesc) : list asec :=
+  match a with Some d => map asec_of_l (l_secs d) | None => [] end.
+
+(* checkNextSignalingState for SetLocalDescription: the next state, if the
+   transition is allowed *)
+Definition local_next (g : sigst) (ty : sdpty) : option sigst :=
+  match ty, g with
+  | TOffer, Stable => Some HaveLocalOffer
+  | TPranswer, HaveRemoteOffer => Some HaveLocalPranswer
+  | TAnswer, HaveRemoteOffer | TAnswer, HaveLocalPranswer => Some Stable
+  | _, _ => None
+  end.
+(* ... and for SetRemoteDescription *)
+Definition remote_next (g : sigst) (ty : sdpty) : option sigst :=
+  match ty, g with
+  | TOffer, Stable => Some HaveRemoteOffer
+  | TPranswer, HaveLocalOffer => Some HaveRemotePranswer
+  | TAnswer, HaveLocalOffer | TAnswer, HaveRemotePranswer => Some Stable
+  | _, _ => None
+  end.
+
 (* SetLocalDescription with an empty SDP (JSEP 5.4: the last created offer or
    answer is used).  When none was created the empty string is used: pion/sdp
-   parses it and it equals pc.lastOffer, so the call goes through. *)
+   parses it and it equals pc.lastOffer / pc.lastAnswer, so the call goes
+   through.  An offer or pranswer only moves the signalling state; an answer
+   makes the pending remote description current, sets the transceivers'
+   currentDirection from the answer's sections and starts the senders. *)
 Definition set_local (s : st) (ty : sdpty) : st * result unit :=
-  match ty with
-  | TOffer =>
-      match sig s with
-      | Stable => (set_sig_remote s HaveLocalOffer (cur_remote s) (pend_remote s), Ok tt)
-      | _ => (s, Err "invalid-transition")
-      end
-  | TAnswer =>
-      match sig s with
-      | HaveRemoteOffer => finish_senders (set_sig_remote s Stable (pend_remote s) None)
-      | _ => (s, Err "invalid-transition")
+  match local_next (sig s) ty with
+  | None => (s, Err "invalid-transition")
+  | Some g =>
+      match ty with
+      | TAnswer =>
+          let s1 := set_sig_remote s g (pend_remote s) None in
+          match remote_desc s1 with
+          | None => (s1, Ok tt)
+          | Some _ =>
+              finish_senders (set_trs s1 (set_cur_dirs false (answer_asecs (last_answer s1)) (trs s1)))
+          end
+      | _ => (set_sig_remote s g (cur_remote s) (pend_remote s), Ok tt)
       end
   end.
 
+(* SetRemoteDescription.  Offers and pranswers (weOffer = false in the code:
+   only desc.Type == answer sets it) go through the transceiver matching loop on
+   pc.RemoteDescription(), which is the description just stored as pending; an
+   answer becomes the current remote description, sets currentDirection and
+   starts the senders. *)
 Definition set_remote (s : st) (ty : sdpty) (d : rdesc) : st * result unit :=
-  match ty with
-  | TOffer =>
-      match sig s with
-      | Stable =>
-          let s1 := set_sig_remote s HaveRemoteOffer (cur_remote s) (Some d) in
+  match remote_next (sig s) ty with
+  | None => (s, Err "invalid-transition")
+  | Some g =>
+      match ty with
+      | TAnswer =>
+          let s1 := set_sig_remote s g (Some d) None in
+          let s2 := set_engine s1 (engine_update (r_secs d) (neg_audio s1) (neg_video s1)) in
+          finish_senders (set_trs s2 (set_cur_dirs true (map asec_of_r (r_secs d)) (trs s2)))
+      | _ =>
+          let s1 := set_sig_remote s g (cur_remote s) (Some d) in
           let s2 := set_engine s1 (engine_update (r_secs d) (neg_audio s1) (neg_video s1)) in
           let '(l, e) := srd_loop (r_secs d) (fresh_local (trs s2)) in
           let s3 := set_trs s2 (strip l) in
           (s3, match e with Some c => Err c | None => Ok tt end)
-      | _ => (s, Err "invalid-transition")
-      end
-  | TAnswer =>
-      match sig s with
-      | HaveLocalOffer =>
-          let s1 := set_sig_remote s Stable (Some d) None in
-          let s2 := set_engine s1 (engine_update (r_secs d) (neg_audio s1) (neg_video s1)) in
-          finish_senders s2
-      | _ => (s, Err "invalid-transition")
       end
   end.
 
 (* ---------- local API ---------- *)
+Definition new_local_tr (k : mkind) (d : dir) (sender : bool) : tr :=
+  {| t_mid := ""; t_kind := k; t_dir := d; t_sender := sender; t_neg := false; t_sent := false;
+     t_cur := None; t_rcur := None |}.
+
 Definition add_transceiver (s : st) (k : mkind) (d : dir) : st * result unit :=
   match d with
   | Sendrecv | Sendonly =>
-      if has_codecs s k then
-        (set_trs s (trs s ++ [{| t_mid := ""; t_kind := k; t_dir := d; t_sender := true; t_neg := false; t_sent := false |}]), Ok tt)
+      if has_codecs s k then (set_trs s (trs s ++ [new_local_tr k d true]), Ok tt)
       else (s, Err "no-codecs")
-  | Recvonly =>
-      (set_trs s (trs s ++ [{| t_mid := ""; t_kind := k; t_dir := Recvonly; t_sender := false; t_neg := false; t_sent := false |}]), Ok tt)
+  | Recvonly => (set_trs s (trs s ++ [new_local_tr k Recvonly false]), Ok tt)
   | Inactive => (s, Err "unsupported-direction")
+  end.
+
+(* isSendAllowed *)
+Definition send_allowed (k : mkind) (t : tr) : bool :=
+  mkind_eqb (t_kind t) k && negb (t_sender t) &&
+  negb (match t_cur t with Some Sendrecv | Some Sendonly => true | _ => false end) &&
+  negb (match t_rcur t with Some Sendonly | Some Inactive => true | _ => false end).
+(* SetSender + setSendingTrack(track) on a transceiver without sender *)
+Definition attach_track (t : tr) : tr :=
+  with_dir (with_sender t true)
+           (match t_dir t with Recvonly => Sendrecv | Inactive => Sendonly | d => d end).
+(* AddTrack's loop: the first transceiver that may send this kind is reused *)
+Fixpoint reuse_for_track (k : mkind) (l : list tr) : option (list tr) :=
+  match l with
+  | [] => None
+  | t :: rest =>
+      if send_allowed k t then Some (attach_track t :: rest)
+      else match reuse_for_track k rest with Some r => Some (t :: r) | None => None end
+  end.
+(* AddTrack: reuse, else a new sendrecv transceiver (newTransceiverFromTrack) *)
+Definition add_track (s : st) (k : mkind) : st * result unit :=
+  match reuse_for_track k (trs s) with
+  | Some l => (set_trs s l, Ok tt)
+  | None => (set_trs s (trs s ++ [new_local_tr k Sendrecv true]), Ok tt)
   end.
 
 Fixpoint upd_nth {A} (n : nat) (f : A -> A) (l : list A) : option (list A) :=
@@ -565,14 +699,40 @@ Definition stop_transceiver (s : st) (i : nat) : st * result unit :=
   | None => (s, Err "no-such-transceiver")   (* the harness reports the same class *)
   end.
 
+(* RemoveTrack(sender of the i-th transceiver): sender.Stop(), then
+   setSendingTrack(nil): the sender is detached before the direction switch, whose
+   default case is an error *)
+Definition detach_track (t : tr) : tr :=
+  let t1 := with_sender t false in
+  match t_dir t with
+  | Sendrecv => with_dir t1 Recvonly
+  | Sendonly => with_dir t1 Inactive
+  | _ => t1
+  end.
+Definition remove_track (s : st) (i : nat) : st * result unit :=
+  match nth_error (trs s) i with
+  | Some t =>
+      if t_sender t then
+        (set_trs s (match upd_nth i detach_track (trs s) with Some l => l | None => trs s end),
+         match t_dir t with
+         | Sendrecv | Sendonly => Ok tt
+         | _ => Err "set-sending-invalid-state"
+         end)
+      else (s, Err "no-such-sender")             (* reported by the harness: nothing to remove *)
+  | None => (s, Err "no-such-sender")
+  end.
+
 Definition create_data_channel (s : st) : st * result unit :=
   ({| trs := trs s; gmid := gmid s; dc := true; sig := sig s; cur_remote := cur_remote s;
       pend_remote := pend_remote s;
-      neg_audio := neg_audio s; neg_video := neg_video s |}, Ok tt).
+      neg_audio := neg_audio s; neg_video := neg_video s;
+      last_offer := last_offer s; last_answer := last_answer s |}, Ok tt).
 
 (* ---------- histories ---------- *)
 Inductive op :=
 | AddTransceiver (k : mkind) (d : dir)
+| AddTrack (k : mkind)
+| RemoveTrack (i : nat)
 | StopTransceiver (i : nat)
 | CreateDataChannel
 | CreateOffer
@@ -588,6 +748,8 @@ Inductive outcome :=
 Definition step (s : st) (o : op) : st * outcome :=
   match o with
   | AddTransceiver k d => let '(s', r) := add_transceiver s k d in (s', ODone r)
+  | AddTrack k => let '(s', r) := add_track s k in (s', ODone r)
+  | RemoveTrack i => let '(s', r) := remove_track s i in (s', ODone r)
   | StopTransceiver i => let '(s', r) := stop_transceiver s i in (s', ODone r)
   | CreateDataChannel => let '(s', r) := create_data_channel s in (s', ODone r)
   | CreateOffer => let '(s', r) := create_offer s in (s', ODesc r)
